@@ -74,7 +74,8 @@ RULE = ("one case = one derived model with all its inputs (<=2 input dimensions 
         "non-trivial when the translated base parameters differ from the base defaults and (if dispersed) the mesh "
         "has >= 2 qualifying points; distinct = distinct (program, input) pairs")
 ASSUMPTIONS = [
-    "the base model's own single-point values, volumes and validity verdict (monodisperse call of the base library) are the reference",
+    "the base model's own single-point values and volumes (monodisperse call of the base library) are the reference; "
+    "the validity verdict is the base definition's `valid` clause evaluated in Python, not the kernel's weight",
     "weights.get_weights supplies (values, weights) per parameter (decided separately by C02)",
     "the Python rendering of each translation template is the meaning of its C text",
     "DLL driver only; non-magnetic calls only; no orientation jitter",
@@ -544,6 +545,25 @@ def run_case(case, ctx):
     raise HarnessError("unknown case kind %r" % case["kind"])
 
 
+def _base_point(kernel, binfo, bp, mode):
+    """
+    Single-point evaluation of the base model at base parameters bp, or None if the point is outside the base
+    model's validity region.  The verdict is the base definition's `valid` clause evaluated in PYTHON
+    (refmodel.py_valid): it must not be read off the kernel's own weight accumulator, which is code under test
+    (a kernel that counts infeasible points in its normalisation would otherwise bless itself).
+    """
+    verdict = refmodel.py_valid(binfo, bp)
+    if verdict is False:
+        return None
+    p = refmodel.raw_point(kernel, dict(bp, scale=1.0, background=0.0), mode)
+    if verdict is None and p["w"] == 0.0:
+        return None
+    if p["w"] != 0.0 and p["w"] != 1.0:
+        # un-normalised accumulators of ONE valid point: weight must be exactly 1
+        raise AssertionError("base model %s: a single valid point has total weight %r" % (binfo.id, p["w"]))
+    return p
+
+
 def _close(a, b, mag=None):
     """1e-10 relative to max(|ref|, Sum|terms|, 1e-3*max|ref| over the q vector): the translation is evaluated by
     libm in one build and by numpy in the reference, so parameter values may differ in the last bit"""
@@ -704,10 +724,7 @@ def _run_prog(case, ctx):
                 return None
             if any(abs(bp[k] - bdefaults[k]) > 1e-9 * max(1.0, abs(bdefaults[k])) for k in rep):
                 moved[0] = True
-            p = refmodel.raw_point(kern["b", _dim], dict(bp, scale=1.0, background=0.0), _mode)
-            if p["w"] == 0.0:
-                return None
-            return p
+            return _base_point(kern["b", _dim], binfo, bp, _mode)
         ref = G.mean_from_points(point_fn, nq, dict(vals, scale=SCALE, background=BACKGROUND), disp, cutoff)
         br = ["dim:" + dim]
         if vop:
@@ -894,8 +911,7 @@ def _seq_one(arg):
                 bp = {k: v for k, v in pt.items() if k in bdefaults}
                 for k, v in tpl["fn"](pt).items():
                     bp[k] = float(v)
-                p = refmodel.raw_point(_kb, dict(bp, scale=1.0, background=0.0), 0)
-                return None if p["w"] == 0.0 else p
+                return _base_point(_kb, binfo, bp, 0)
             ref = G.mean_from_points(point_fn, len(Q1), dict(vals, scale=SCALE, background=BACKGROUND), disp, 0.0)
             with np.errstate(all="ignore"):
                 got = call_kernel(kd, dict(pars), cutoff=0.0)
